@@ -424,6 +424,10 @@ def run_pass(world, pspec, vector):
     except Stall as e:
         stall = str(e)
 
+    for (k_, owner_, oi_) in sched.deadlocks:
+        op_ = progs[k_][oi_] if 0 <= oi_ < len(progs[k_]) else {"f": "?"}
+        viol.append(_viol("C20", "I7", "deadlock", f"T:{k_}:{oi_}:{op_['f']}", pname,
+                          f"thread {k_} waits for a lock still held by thread {owner_}, which has finished: the call can never return"))
     # ------------------------------------------------------------------- end
     if stall is None:
         check_pool("end")
